@@ -1136,7 +1136,10 @@ tp_shutdown(tp_p tp) {
 	for (size_t i = 0; i < tp->s.threads_max; i ++) {
 		if (0 == tpt_is_running(&tp->threads[i]))
 			continue;
-		tpt_msg_send(&tp->threads[i], NULL, 0,
+		/* TP_MSG_F_FAIL_DIRECT: if thread queue is full message can
+		 * not be queued, mark thread directly: it will see new state
+		 * after current queue processing. */
+		tpt_msg_send(&tp->threads[i], NULL, TP_MSG_F_FAIL_DIRECT,
 		    tpt_msg_shutdown_cb, NULL);
 	}
 }
